@@ -174,6 +174,32 @@ def run(ctx):
                     ctx.check(any(strip_site(r[3][0][1]) == strip_site(f.origin_call(b, t)) for b, t in f.calls() if t.get("rpath") in read_names), "R02.2",
                               "%s|yields-what-it-read" % f.name, "the iterator yields the value it just read", f.where())
 
+    # ---- R02.9 each step of an iterator is a read of its own: whatever `next()` yields was read from the store during that
+    # very call (a value resolved ahead of time - a batch, a prefetch, a memo kept in the iterator - may have been deleted or
+    # superseded by a write that completed before this `next()` began)
+    from sym import ipaths
+    n_it = 0
+    for f in reads:
+        if f.rec.get("impl_trait") != "std::iter::Iterator":
+            continue
+        n_it += 1
+        stop = lambda n: (n in read_names and n != f.name and F.fns[n].rec.get("impl_trait") != "std::iter::Iterator") or n in readers
+        bad = None
+        n_some = 0
+        for p in ipaths(F, f, stop=stop, depth=4):
+            if p.ret_variant() != ("Some",) and not (p.ret[0] == "agg" and len(p.ret) > 2 and p.ret[2] == "Some"):
+                continue
+            n_some += 1
+            rd = [e for e in p.events if (e.callee in read_names or e.callee in readers) and not e.log]
+            tied = [e for e in rd if mentions(p.ret, lambda s, e=e: strip_site(s) == strip_site(e.res))
+                    or any(mentions(a[1], lambda s, e=e: strip_site(s) == strip_site(e.res)) for a in p.atoms)]
+            if not tied:
+                bad = "a path yields %s after %d read(s) made in this call, none of which it depends on" % (fmt(p.ret)[:120], len(rd))
+                break
+        ctx.check(bad is None and n_some >= 1, "R02.9", "%s|yields-a-read-made-in-this-call" % f.name,
+                  "every value an iterator step yields is (a projection of) a store read made during that step", f.where(), bad or "%d yielding path(s)" % n_some)
+    ctx.floor("R02.9", "iterator read variants", n_it, 1)
+
     # ---- R02.6 a deleted value is never returned: the hide-before-queueing rules of C04 -----------------
     import c04
     for o in ctx.own_of("c04"):
